@@ -13,6 +13,7 @@ THEOREMS = ['MindsVerif.Props.C10.' + n for n in (
     'C10_resolve_table_sub',
     # the data source of a time-series model inside CREATE TABLE / INSERT / UPDATE..FROM
     'C10_partial_dbt', 'C10_dbt_project_source', 'C10_dbt_plain', 'C10_witness_dbt', 'C10_dbt_full_false',
+    'C10_regression_dbt',
     # T10.3 stripping and whole-query pushdown
     'C10_partial_stripped', 'C10_partial_stripped_no_names', 'C10_stripped_exact', 'C10_partial_pushdown',
     'C10_pushdown_full_false', 'C10_witness_5', 'C10_stripped_full_false',
@@ -531,7 +532,10 @@ def run(chk):
                 if arg and all(arg):
                     rdbt, mdbt = R.real_dbt_source(c, arg, dbt_int), [R.dec(p) for p in o['dbt']]
                     if rdbt != mdbt:
-                        why = dict(catalog=c.kwargs(), parts=arg, integration=dbt_int, field='adapt_dbt_query (source)', impl=rdbt, model=mdbt)
+                        older = rdbt == [R.dec(p) for p in o['dbtOld']]
+                        why = dict(catalog=c.kwargs(), parts=arg, integration=dbt_int, impl=rdbt, model=mdbt,
+                                   field='adapt_dbt_query (source)' + (' — the planner follows the variant BEFORE 18f6c71 '
+                                                                       '(qualifier compared as written): regression' if older else ''))
                 # resolve_table is transcribed on its own (Model.resolveTable): integration, rest, aliases, bare-name flag
                 rti, mti = R.real_table_info(c, arg, alias), R.model_table_info(o['tableInfo'])
                 if rti != mti and arg and all(arg):
